@@ -264,8 +264,10 @@ Proof.
   - unfold KeeperFacts.ack_at. cbn [Keeper.c_kv with_kv]. rewrite KVE by fam_neq. auto.
   - intros R. left. unfold KeeperFacts.receipt_at in *. cbn [Keeper.c_kv with_kv]. rewrite KVE by fam_neq. exact R.
   - unfold Keeper.clean_seq. cbn [Keeper.c_kv with_kv]. rewrite KVE; [lia|].
-    unfold clean_key. intros X. apply pair_key_inj in X; try (apply is_fam_noslash; auto with keys); try assumption.
+    unfold clean_key. intros X. apply pair_key_inj in X; try assumption; try (apply is_fam_noslash; auto with keys).
     destruct X as (_ & X & _). congruence.
+  - intros CM. destruct I as (L & _). unfold KeeperFacts.receipt_at in *. cbn [Keeper.c_kv with_kv].
+    rewrite KVE by fam_neq. apply L. exact CM.
 Qed.
 
 End AckOnce.
